@@ -23,11 +23,12 @@ PROPS["C19"] = {
                     "4-byte slot ids cannot be filled to their limit on this host; they are covered below the limit only",
                     "pool-table request sizes are checked for plausibility, not compared (growth policy is not part of the contract)"],
     "quick": [dict(_PX, args=["--caps=list"])] + _bfs(_geo(1, 3, 3), 2) + _bfs(_geo(2, 7, 2, 1), 2) + _bfs(_geo(4, 128, 4, 4), 2) +
+             _bfs(_geo(1, 128, 4), 2) +  # more inline pools than the id range can address
              [{"src": "checks/hx.cpp", "mode": "limits", "defs": _geo(1, 4, 1, 1), "arduino": True, "fallback_defs": ["VERIF_NO_INSPECTOR"], "deps": ["checks/hx.hpp", "checks/hx_fault.hpp", "checks/hx_limits.hpp"], "shards": 4},
               {"src": "checks/hx.cpp", "mode": "limits", "defs": _geo(1, 10, 3, 2), "arduino": True, "fallback_defs": ["VERIF_NO_INSPECTOR"], "deps": ["checks/hx.hpp", "checks/hx_fault.hpp", "checks/hx_limits.hpp"], "shards": 4}],
     "thorough": [dict(_PX, args=["--caps=all", "--id2"])] +
                 sum([_bfs(_geo(i, c, n, s), 3) for (i, c, n, s) in
-                     [(1, 2, 1, 1), (1, 3, 3, 2), (1, 5, 2, 1), (1, 7, 4, 2), (1, 10, 3, 1), (1, 16, 1, 2), (1, 17, 2, 4), (1, 100, 1, 1), (1, 255, 1, 2),
+                     [(1, 2, 1, 1), (1, 3, 3, 2), (1, 5, 2, 1), (1, 7, 4, 2), (1, 10, 3, 1), (1, 16, 1, 2), (1, 17, 2, 4), (1, 100, 1, 1), (1, 255, 1, 2), (1, 128, 4, 1), (1, 85, 4, 2), (1, 255, 3, 1),
                       (2, 2, 1, 1), (2, 7, 2, 2), (2, 15, 3, 4), (2, 31, 4, 1), (2, 256, 1, 2), (4, 8, 1, 1), (4, 64, 2, 2), (4, 127, 3, 4), (4, 256, 4, 2)]], []) +
                 [{"src": "checks/hx.cpp", "mode": "limits", "defs": _geo(i, c, n, s), "arduino": True, "fallback_defs": ["VERIF_NO_INSPECTOR"], "deps": ["checks/hx.hpp", "checks/hx_fault.hpp", "checks/hx_limits.hpp"], "shards": 4}
                  for (i, c, n, s) in [(1, 4, 1, 1), (1, 10, 3, 2), (1, 255, 1, 1), (1, 64, 2, 2), (1, 7, 4, 1), (2, 256, 1, 2), (2, 100, 3, 1)]],
